@@ -1818,14 +1818,17 @@ class PGPKey(Armorable, ParentRef, PGPObject):
 
         try:
             for sk in itertools.chain([self], self.subkeys.values()):
-                sk._key.unprotect(passphrase)
+                if sk._key.protected:
+                    sk._key.unprotect(passphrase)
             del passphrase
             yield self
 
         finally:
             # clean up here by deleting the previously decrypted secret key material
+            # (a component that is not protected - e.g. a subkey added inside this block - has no encrypted form to come back to: it keeps its material)
             for sk in itertools.chain([self], self.subkeys.values()):
-                sk._key.keymaterial.clear()
+                if sk._key.protected:
+                    sk._key.keymaterial.clear()
 
     def add_uid(self, uid, selfsign=True, **prefs):
         """
